@@ -254,3 +254,7 @@ pub fn c05_inc_guards() {
     std::mem::forget(store);
     std::mem::forget(counts);
 }
+
+pub(crate) fn stub_transition_after_unreachable(_c: &mut Counts, _s: store::Ptr, _r: bool) {
+    panic!("UNREACHABLE-STUB Counts::transition_after")
+}
